@@ -18,6 +18,9 @@ type metrics struct{ o *objRT }
 // change of the claim: this is the observation point of C02.
 func (m *metrics) SetIsLeader(v float64, _ prometheus.Labels) {
 	o, s := m.o, m.o.s
+	if s.lean {
+		return
+	}
 	s.mu.Lock()
 	defer s.mu.Unlock()
 	o.gauge, o.gaugeSet = v, true
@@ -39,6 +42,9 @@ func (m *metrics) SetIsLeader(v float64, _ prometheus.Labels) {
 
 func (m *metrics) rec(kind string, v float64, from, to, label string) {
 	o, s := m.o, m.o.s
+	if s.lean {
+		return
+	}
 	s.mu.Lock()
 	defer s.mu.Unlock()
 	s.tr.Mets = append(s.tr.Mets, &MetRec{Seq: s.nextSeq(), T: s.now(), Obj: o.idx, Inst: o.in.idx, Kind: kind, Value: v, From: from, To: to, Label: label})
@@ -68,6 +74,9 @@ var keepFields = map[string]bool{"reason": true, "retry": true, "initial_jitter"
 
 func (l *logger) log(level, msg string, fields []zap.Field) {
 	o, s := l.o, l.o.s
+	if s.lean {
+		return
+	}
 	r := &LogRec{Obj: o.idx, Inst: o.in.idx, Level: level, Msg: msg, Gid: gid()}
 	for _, f := range fields {
 		if !keepFields[f.Key] {
@@ -108,6 +117,21 @@ type health struct{ o *objRT }
 
 func (h *health) Check(ctx context.Context) bool {
 	o, s := h.o, h.o.s
+	if s.lean {
+		// (only the heartbeat loops of one instance meet at this counter)
+		n := int(o.in.healthNA.Add(1) - 1)
+		script := 0
+		if n < len(o.in.spec.Health) {
+			script = o.in.spec.Health[n]
+		}
+		if script >= 2 {
+			select {
+			case <-ctx.Done():
+			case <-s.teardownCh:
+			}
+		}
+		return script == 0 || script == 2
+	}
 	s.mu.Lock()
 	n := o.in.healthN
 	o.in.healthN++
